@@ -513,6 +513,16 @@ func (t *Term) write(sb *strings.Builder) {
 		sb.WriteString(t.Op)
 		return
 	}
+	if t.Op == "$multi" {
+		// multi-pattern: terms side by side inside one :pattern ( ... )
+		for i, a := range t.Args {
+			if i > 0 {
+				sb.WriteString(" ")
+			}
+			a.write(sb)
+		}
+		return
+	}
 	sb.WriteString("(")
 	sb.WriteString(t.Op)
 	for _, a := range t.Args {
